@@ -32,6 +32,7 @@ type fakeConn struct {
 	closeN    int32 // Close calls made by the pool (the harness uses userClose)
 	unblocked chan struct{}
 	mu        sync.Mutex
+	tr        *useTracker // set in the handle-level scenarios
 }
 
 var closedCh = func() chan struct{} { c := make(chan struct{}); close(c); return c }()
@@ -54,10 +55,82 @@ func (c *fakeConn) userClose()                 { c.once.Do(func() { close(c.clos
 func (c *fakeConn) Closed() <-chan struct{}    { return c.closed }
 func (c *fakeConn) Unblocked() <-chan struct{} { return c.unblocked }
 func (c *fakeConn) Invoke(ctx context.Context, rpc string, enc drpc.Encoding, in, out drpc.Message) error {
+	if c.tr != nil {
+		c.tr.enter(c, "Invoke")
+		defer c.tr.leave(c)
+	}
 	return nil
 }
 func (c *fakeConn) NewStream(ctx context.Context, rpc string, enc drpc.Encoding) (drpc.Stream, error) {
-	return nil, fmt.Errorf("not supported")
+	if c.tr == nil {
+		return nil, fmt.Errorf("not supported")
+	}
+	c.tr.enter(c, "NewStream")
+	st := &fakeStream{c: c, done: make(chan struct{})}
+	return st, nil
+}
+
+// useTracker records how the pool's handles use the underlying connections: a connection is in use
+// from the moment Invoke/NewStream is called on it until the call returned / the stream finished.
+type useTracker struct {
+	mu    sync.Mutex
+	inUse map[*fakeConn]int
+	fails []string
+}
+
+func (t *useTracker) enter(c *fakeConn, what string) {
+	t.mu.Lock()
+	defer t.mu.Unlock()
+	if c.isClosed() {
+		t.fails = append(t.fails, fmt.Sprintf("%s was called on connection c%d which is closed", what, c.id))
+	}
+	t.inUse[c]++
+	if t.inUse[c] > 1 {
+		t.fails = append(t.fails, fmt.Sprintf("connection c%d was handed to a second caller (%s) while a stream or call of another caller is still running on it", c.id, what))
+	}
+}
+
+func (t *useTracker) leave(c *fakeConn) {
+	t.mu.Lock()
+	t.inUse[c]--
+	t.mu.Unlock()
+}
+
+// fakeStream is a stream on a fakeConn; its context ends when finish is called.
+type fakeStream struct {
+	c    *fakeConn
+	done chan struct{}
+	once sync.Once
+}
+
+type fakeStreamCtx struct {
+	context.Context
+	done chan struct{}
+}
+
+func (f fakeStreamCtx) Done() <-chan struct{} { return f.done }
+func (f fakeStreamCtx) Err() error {
+	select {
+	case <-f.done:
+		return context.Canceled
+	default:
+		return nil
+	}
+}
+
+func (s *fakeStream) Context() context.Context {
+	return fakeStreamCtx{Context: context.Background(), done: s.done}
+}
+func (s *fakeStream) MsgSend(drpc.Message, drpc.Encoding) error { return nil }
+func (s *fakeStream) MsgRecv(drpc.Message, drpc.Encoding) error { return nil }
+func (s *fakeStream) CloseSend() error                          { return nil }
+func (s *fakeStream) Close() error                              { s.finish(); return nil }
+func (s *fakeStream) finish() {
+	s.once.Do(func() {
+		s.c.tr.leave(s.c)
+		close(s.done)
+		census.Bump()
+	})
 }
 func (c *fakeConn) isClosed() bool { return rig.IsClosed(c.closed) }
 
@@ -471,6 +544,149 @@ func concurrent(id string, seed uint64, c cfg) runner.Result {
 	return res
 }
 
+// handles: the pool is used through the connections Get hands out (Invoke, NewStream, Close on the
+// handle) rather than through Put/Take: underlying connections are dialed on demand, returned to the
+// pool when a call returns or a stream finishes, and must never serve two callers at once.
+func handles(id string, seed uint64, c cfg) runner.Result {
+	r := &payload.SplitMix{S: seed}
+	opts := drpcpool.Options{Capacity: c.cap, KeyCapacity: c.kcap, Expiration: c.exp}
+	p := drpcpool.New[string, *fakeConn](opts)
+	tr := &useTracker{inUse: map[*fakeConn]int{}}
+	var dmu sync.Mutex
+	var dialed []*fakeConn
+	dial := func(ctx context.Context, key string) (*fakeConn, error) {
+		dmu.Lock()
+		defer dmu.Unlock()
+		cn := newConn(len(dialed)+1, false)
+		cn.tr = tr
+		dialed = append(dialed, cn)
+		return cn, nil
+	}
+	type handle struct {
+		name   string
+		key    string
+		conn   drpcpool.Conn
+		closed bool
+	}
+	var hs []*handle
+	for i := 0; i < 2+r.Intn(2); i++ {
+		k := []string{"a", "b"}[r.Intn(2)]
+		hs = append(hs, &handle{name: fmt.Sprintf("h%d", i+1), key: k, conn: p.Get(context.Background(), k, dial)})
+	}
+	type open struct {
+		h        *handle
+		wrapped  drpc.Stream
+		finished bool
+		n        int
+	}
+	var streams []*open
+	var hist []string
+	var fails []string
+	nstream := 0
+	check := func() {
+		census.Quiesce(rig.Watchdog)
+		for _, o := range streams {
+			if !o.finished && rig.IsClosed(o.wrapped.Context().Done()) {
+				fails = append(fails, fmt.Sprintf("after %s: the context of stream s%d reports done although the stream has not finished", hist[len(hist)-1], o.n))
+				o.finished = true // report once
+			}
+		}
+		snap := p.VerifSnapshot()
+		if c.cap > 0 && len(snap.GlobalVals) > c.cap {
+			fails = append(fails, fmt.Sprintf("after %s: %d connections cached, capacity %d", hist[len(hist)-1], len(snap.GlobalVals), c.cap))
+		}
+	}
+	nops := 6 + r.Intn(14)
+	for i := 0; i < nops && len(fails) == 0; i++ {
+		h := hs[r.Intn(len(hs))]
+		switch op := r.Intn(10); {
+		case op < 3:
+			err := h.conn.Invoke(context.Background(), "/x", nil, nil, nil)
+			hist = append(hist, fmt.Sprintf("%s.Invoke", h.name))
+			if h.closed && err == nil {
+				fails = append(fails, fmt.Sprintf("%s.Invoke succeeded after %s.Close", h.name, h.name))
+			}
+		case op < 6:
+			st, err := h.conn.NewStream(context.Background(), "/x", nil)
+			nstream++
+			hist = append(hist, fmt.Sprintf("%s.NewStream=s%d", h.name, nstream))
+			if err == nil {
+				streams = append(streams, &open{h: h, wrapped: st, n: nstream})
+				if h.closed {
+					fails = append(fails, fmt.Sprintf("%s.NewStream succeeded after %s.Close", h.name, h.name))
+				}
+			}
+		case op < 9:
+			// finish a seeded open stream
+			var cand []*open
+			for _, o := range streams {
+				if !o.finished {
+					cand = append(cand, o)
+				}
+			}
+			if len(cand) == 0 {
+				continue
+			}
+			o := cand[r.Intn(len(cand))]
+			o.finished = true
+			o.wrapped.Close()
+			hist = append(hist, fmt.Sprintf("finish(s%d)", o.n))
+		default:
+			if h.closed {
+				continue // closing a handle twice is not part of this property
+			}
+			h.closed = true
+			h.conn.Close()
+			hist = append(hist, fmt.Sprintf("%s.Close", h.name))
+		}
+		check()
+	}
+	for _, o := range streams {
+		if !o.finished {
+			o.finished = true
+			o.wrapped.Close()
+		}
+	}
+	census.Quiesce(rig.Watchdog)
+	p.Close()
+	census.Quiesce(rig.Watchdog)
+	tr.mu.Lock()
+	fails = append(fails, tr.fails...)
+	tr.mu.Unlock()
+	dmu.Lock()
+	for _, cn := range dialed {
+		if !cn.isClosed() {
+			fails = append(fails, fmt.Sprintf("connection c%d was dialed through a handle and is neither closed nor cached after every stream finished and the pool was closed", cn.id))
+		} else if n := atomic.LoadInt32(&cn.closeN); n > 1 {
+			fails = append(fails, fmt.Sprintf("connection c%d was closed %d times", cn.id, n))
+		}
+	}
+	ndial := len(dialed)
+	dmu.Unlock()
+	conf := fmt.Sprintf("cap=%d keycap=%d exp=%v handles", c.cap, c.kcap, c.exp)
+	if len(fails) > 0 {
+		return runner.Violation(id, "pool:handles:"+keyOfFail(fails[0]), conf+" history: "+strings.Join(hist, " ")+"\n"+strings.Join(fails, "\n"))
+	}
+	res := runner.Hold(id, conf+" "+strings.Join(hist, " "), len(hist) >= 3)
+	res.Events = int64(len(hist))
+	res.Stats = map[string]int64{"dials": int64(ndial), "handle_streams": int64(nstream)}
+	return res
+}
+
+func keyOfFail(s string) string {
+	s = strings.Map(func(r rune) rune {
+		if r >= '0' && r <= '9' {
+			return -1
+		}
+		return r
+	}, s)
+	f := strings.Fields(s)
+	if len(f) > 8 {
+		f = f[:8]
+	}
+	return strings.Join(f, "-")
+}
+
 func gen(tier string, seed uint64) []runner.Scenario {
 	var out []runner.Scenario
 	thorough := tier == "thorough"
@@ -511,6 +727,21 @@ func gen(tier string, seed uint64) []runner.Scenario {
 			}
 		}
 	}
+	hreps := 3
+	if thorough {
+		hreps = 60
+	}
+	for _, cp := range []int{0, 1, 2} {
+		for _, kc := range []int{0, 1} {
+			for rep := 0; rep < hreps; rep++ {
+				c := cfg{cp, kc, 0}
+				id := fmt.Sprintf("handles/cap=%d/kcap=%d/%d", cp, kc, rep)
+				s := payload.Hash(seed, 0x153, uint64(i))
+				i++
+				out = append(out, runner.Scenario{ID: id, Run: func() runner.Result { return handles(id, s, c) }})
+			}
+		}
+	}
 	creps := 1
 	if thorough {
 		creps = 12
@@ -535,7 +766,7 @@ func main() {
 	runner.Main(runner.Check{
 		Property: "C15",
 		Level:    "exploration",
-		Rule:     "one case = one history on one pool of fake connections: (seq) 4-24 seeded Put/Take/put-back/outside-close/unblock operations over 1-3 keys for every (Capacity, KeyCapacity) in {-1,0,1,2,3}^2 with no expiry firing; (expiry) Expiration=1ms, an expiry callback parked at one of its three internal points (fired / after Close / before the lock), 1-5 operations (Take, Put, put-back, pool.Close) run inside that window, release, more operations; (concurrent) 4 goroutines x 120 Put/Take with perturbed scheduling, with and without expiry. After every operation and in every window the pool is walked under its lock. Non-trivial: histories of >= 3 operations. Distinct: by configuration and history.",
+		Rule:     "one case = one history on one pool of fake connections: (seq) 4-24 seeded Put/Take/put-back/outside-close/unblock operations over 1-3 keys for every (Capacity, KeyCapacity) in {-1,0,1,2,3}^2 with no expiry firing; (expiry) Expiration=1ms, an expiry callback parked at one of its three internal points (fired / after Close / before the lock), 1-5 operations (Take, Put, put-back, pool.Close) run inside that window, release, more operations; (concurrent) 4 goroutines x 120 Put/Take with perturbed scheduling, with and without expiry; (handles) 2-3 connection handles from Pool.Get over 1-2 keys, 6-19 seeded Invoke / NewStream / finish-a-stream / handle.Close operations: an underlying connection never serves two callers at once and never after it was closed, a wrapped stream's context ends only after the stream finished, every dialed connection ends up closed exactly once. After every operation and in every window the pool is walked under its lock. Non-trivial: histories of >= 3 operations. Distinct: by configuration and history.",
 		Assumptions: []string{
 			"which eligible connection Take returns and which entry is evicted are not asserted",
 			"a connection that was already closed when Put is called may be dropped without a pool-initiated Close",
